@@ -205,6 +205,25 @@ func cmdReplay(path string, o *options) int {
 		return 2
 	}
 	fmt.Printf("obligation: %v\n%v\n", content["obligation"], content["description"])
+	if cls, _ := content["class"].(string); cls == "BOUNDED" {
+		// re-run the bounded driver on the current tree: it stops at (and prints) the first failing input
+		rr := &replayResult{Inputs: map[string]string{}}
+		rr.Driver, _ = content["driver"].(string)
+		if src, err := os.ReadFile(rr.Driver); err == nil {
+			if m := replayPkgRe.FindSubmatch(src); m != nil {
+				rr.Package = string(m[1])
+			}
+		}
+		tier, _ := content["tier"].(string)
+		runGoTestDriver(o.repo, rr, fmt.Sprint(content["obligation"]), "TestGovcBounded", []string{"GOVC_BOUNDED_TIER=" + tier}, 600)
+		fmt.Println(rr.Output)
+		if strings.Contains(rr.Output, "GOVC-BOUNDED: violated") {
+			fmt.Println("replay: violation reproduced on the real code")
+			return 1
+		}
+		fmt.Println("replay: not reproduced")
+		return 0
+	}
 	rp, ok := content["replay"].(map[string]any)
 	if !ok {
 		fmt.Println("no concrete replay recorded for this obligation (no-failing-input-found); solver output:")
